@@ -34,6 +34,10 @@ def run(R):
         r4(R, m)
     if R.want("C14.R5"):
         r5(R, m)
+    if R.want("C14.R6"):
+        r6(R, m)
+    if R.want("C14.R7"):
+        r7(R, m)
 
 
 def r1(R, m):
@@ -428,6 +432,25 @@ def r3(R):
     R.check(tl == inl and tpos == ipos and ret is not None and ret == Poly.atom(cpos) + 1, "C14.R3", SP, cd.line, "compress_duplicates",
             "last run written: i[c]=ik; j[c]=jk; oi[c]=t; c++",
             "the last (label1,label2) pair or its count is not written, or the returned number of pairs is not the write position + 1: tail stores %s, return %s" % (tl, ret))
+    # the histogram bound: vmax = max over k = 0..n-1 of i[k] and j[k].  The scan must see element 0 of BOTH arrays (it is the start
+    # value for one of them only): a scan that starts at k = 1 after 'vmax = i[0]' never looks at j[0], and when that is the largest
+    # label tmp[j[0]] is neither zeroed nor summed - its stale content becomes a write position in oi / oj
+    i_, j_ = cd.params[0].name, cd.params[1].name
+    vm = [st for st in swalk(cd.body) if st.k == "for" and any(x.k == "asg" and x.a[0].k == "var" and x.a[0].name == "vmax" for s2, x in cfront.all_exprs(st.body))]
+    R.shape(len(vm) == 1, "C14.R3", SP, "compress_duplicates", "the loop that finds the largest label (vmax)")
+    from engine import omp as _omp
+    hd = _omp.loop_header(vm[0])
+    R.shape(hd is not None, "C14.R3", SP, "compress_duplicates", "a canonical loop header for the vmax scan")
+    lo_ = crules.lin(hd[1])
+    scanned = set(estr(x.a[0]) for s2, x in cfront.all_exprs(vm[0].body) if x.k == "idx" and estr(x.a[1]) == hd[0])
+    inits = [x for s2, x in cfront.all_exprs(cd.body) if x.k == "asg" and x.op == "=" and x.a[0].k == "var" and x.a[0].name == "vmax" and (x.line or 0) < (vm[0].line or 0)]
+    seeded = set(estr(y.a[0]) for x in inits for y in ewalk(x.a[1]) if y.k == "idx" and estr(y.a[1]) == "0")
+    covered0 = set(scanned) if (lo_ is not None and lo_.is_const() and lo_.const_value() == 0) else seeded
+    R.check({i_, j_} <= scanned and {i_, j_} <= covered0, "C14.R3", SP, vm[0].line, "compress_duplicates",
+            "vmax scans %s from k = %s (element 0 seen for %s)" % (sorted(scanned), estr(hd[1]), sorted(covered0)),
+            "the scan for the largest label does not look at element 0 of %s: when that label is the largest, the histogram cell it indexes "
+            "is never zeroed nor summed and its stale content is used as a write position - writes outside oi / oj and a garbage table" % (
+                sorted({i_, j_} - covered0) or sorted({i_, j_} - scanned)))
     # every other return: a count that can be positive promises that many (label1, label2, count) triples - the count array (third
     # argument) must have been written on that path.  'return 0' (constant) promises nothing.
     oi = cd.params[2].name
@@ -614,3 +637,110 @@ def r5(R, m):
                     bounded.add(src(l_).replace(" ", ""))
     R.check({"data.shape[0]", "data.shape[1]"} <= bounded, "C14.R5", SPF, fm.lineno, "from_data_mask", "shape asserted < 65535",
             "images beyond the 16-bit coordinate range are not rejected (asserted: %s)" % sorted(bounded))
+
+
+# --------------------------------------------------------------------------------------------------
+# arrays that a kernel writes although the .pyf does not say so, confirmed by reading: every caller in the package allocates them
+# itself with exactly the kernel's element type, so f2py never substitutes a converted copy
+WRITTEN_OK = {
+    ("coverlaps", "mat"): "overlaps_matrix.realloc allocates self.matrix as int32 zeros and passes that very array",
+    ("tosparse_u16", "row"): "from_data_cut allocates row / col / val with the kernel's dtypes (np.empty(shape, uint16 / dtype of data))",
+    ("tosparse_u16", "col"): "as row", ("tosparse_u16", "val"): "as row",
+    ("tosparse_u32", "row"): "as tosparse_u16", ("tosparse_u32", "col"): "as tosparse_u16", ("tosparse_u32", "val"): "as tosparse_u16",
+    ("tosparse_f32", "row"): "as tosparse_u16", ("tosparse_f32", "col"): "as tosparse_u16", ("tosparse_f32", "val"): "as tosparse_u16",
+}
+KERNELS14 = ("mask_to_coo", "tosparse_u16", "tosparse_u32", "tosparse_f32", "sparse_is_sorted", "sparse_overlaps", "compress_duplicates", "coverlaps")
+
+
+def r6(R, m):
+    """an array argument that the C function writes and the caller reads back must be declared intent(inout) / intent(out) /
+    intent(inplace) in the .pyf.  With the default (input) intent f2py passes the caller's buffer only when dtype and layout
+    happen to match and otherwise a converted temporary: the kernel's result is then silently lost (compress_duplicates on int64
+    label pairs sorted a copy and the caller read its own unsorted arrays).  The Python callers of compress_duplicates make the
+    pair arrays themselves as int32 (astype('i') / np.empty(.., 'i'))."""
+    import os
+    R.rule("C14.R6", "sparse kernels: every array the C function writes is intent(inout/out) in the .pyf (or a confirmed site whose callers "
+                     "allocate it with the exact type); overlaps() / overlaps_linear hand compress_duplicates int32 pair arrays they own")
+    tus = cfront.load(R.root, files=["sparse_image.c"])
+    fns, order = iface.crack(os.path.join(R.root, "src/_cImageD11.pyf"))
+    byname = {f.name: f for f in cfront.all_funcs(tus)}
+    n = 0
+    for name in KERNELS14:
+        f, blk = byname.get(name), fns.get(name)
+        R.shape(f is not None and blk is not None, "C14.R6", SP, name, "the function in sparse_image.c and its block in the .pyf")
+        for k, prm in enumerate(f.params):
+            v = blk["vars"].get(blk["args"][k]) if k < len(blk["args"]) else None
+            if v is None or "dimension" not in v:
+                continue
+            written = False
+            for st, x in cfront.all_exprs(f.body):
+                tgt = x.a[0] if x.k in ("asg", "incdec") else None
+                if tgt is None or tgt.k == "var":
+                    continue
+                b = tgt
+                while b.k in ("idx", "cast"):
+                    b = b.a[0]
+                if b.k == "un" and b.op == "*":
+                    b = b.a[0]
+                if b.k == "var" and b.name == prm.name:
+                    written = True
+            if not written:
+                continue
+            n += 1
+            intents = set(v.get("intent", []))
+            ok = bool(intents & {"inout", "out", "inplace"}) or (name, prm.name) in WRITTEN_OK
+            R.check(ok, "C14.R6", "src/_cImageD11.pyf", 1, name, "%s(%s): written by the C code, pyf intent %s" % (name, prm.name, sorted(intents)),
+                    "the C function writes '%s' but the .pyf declares it an input: for an argument of another dtype (int64 labels) or layout "
+                    "f2py passes a converted copy, the function works on the copy and the caller reads back its own unchanged array - wrong "
+                    "overlap pairs with no error" % prm.name)
+    # the two Python callers of compress_duplicates
+    for q in ("overlaps", "overlaps_linear.__call__"):
+        fn = m.func(q)
+        cd = [c for c in ast.walk(fn) if isinstance(c, ast.Call) and (pyfacts.dotted(c.func) or "").endswith("compress_duplicates")]
+        R.shape(len(cd) == 1 and len(cd[0].args) >= 2, "C14.R6", SPF, q, "the compress_duplicates call")
+        for a in cd[0].args[:2]:
+            e = pyfacts.resolved(fn, a, 3, keep=("self",))
+            t = src(e).replace(" ", "").replace('"', "'")
+            owned = t.endswith(".astype('i')") or t.endswith(".astype(np.int32)") or ".astype('i'," in t or "np.ascontiguousarray(" in t and ("'i'" in t or "int32" in t) \
+                or t.startswith("np.array(") and ("'i'" in t or "int32" in t) or t.endswith(".astype('int32')")
+            n += 1
+            R.check(owned, "C14.R6", SPF, cd[0].lineno, q, "pair array %s is an int32 array made here (%s)" % (src(a), t[:60]),
+                    "the label pairs handed to compress_duplicates keep the dtype of the caller's label array: the kernel sorts and compresses "
+                    "them in place, which only reaches this array when it is int32")
+    R.floor("C14.R6", 8)
+
+
+def r7(R, m):
+    """sinograms.properties.pairrow / pairscans keep every answer of one overlaps_linear object in a dictionary.  The (nedge, 3)
+    table it returns therefore has to be an array made in that call: a view of a buffer the object keeps (self.<name>[:nedge]) is
+    overwritten by the next call and every stored answer silently becomes the last one."""
+    R.rule("C14.R7", "overlaps_linear.__call__ returns a table allocated in that call (np.zeros / np.empty / np.array / .copy()), not a view of "
+                     "a buffer kept on the object (its answers are stored by pairrow / pairscans)")
+    fn = m.func("overlaps_linear.__call__")
+    cfg = pyfacts.PyCFG(fn)
+    n = 0
+    for r in ast.walk(fn):
+        if not (isinstance(r, ast.Return) and isinstance(r.value, ast.Tuple) and len(r.value.elts) == 2):
+            continue
+        tab = r.value.elts[1]
+        if isinstance(tab, ast.Constant) and tab.value is None:
+            continue
+        node = cfg.node_of(r)
+        vals = cfg.reaching(node, src(tab)) if isinstance(tab, ast.Name) else [(tab, [])]
+        for v, g in vals:
+            n += 1
+            if v is None or v == "unknown":
+                R.shape(False, "C14.R7", SPF, "overlaps_linear.__call__", "where the returned table %s is made" % src(tab))
+            e = v
+            root = e
+            while isinstance(root, (ast.Subscript, ast.Attribute)) or (isinstance(root, ast.Call) and isinstance(root.func, ast.Attribute)
+                                                                      and root.func.attr in ("reshape", "view", "ravel", "transpose")):
+                root = root.func.value if isinstance(root, ast.Call) else root.value
+            fresh = isinstance(e, ast.Call) and ((pyfacts.dotted(e.func) or "").split(".")[-1] in ("zeros", "empty", "array", "copy", "ones", "full", "stack", "column_stack", "vstack", "transpose")
+                                                 and not (isinstance(e.func, ast.Attribute) and src(e.func.value).startswith("self.") and e.func.attr != "copy"))
+            kept = isinstance(root, ast.Name) and root.id == "self" and not fresh
+            R.shape(fresh or kept, "C14.R7", SPF, "overlaps_linear.__call__", "whether %s = %s is a new array" % (src(tab), src(e)[:50]))
+            R.check(fresh, "C14.R7", SPF, r.lineno, "overlaps_linear.__call__", "returned table %s = %s" % (src(tab), src(e)[:50]),
+                    "the table handed back is a view of %s, a buffer the object keeps: the next call overwrites it, and the answers that "
+                    "properties.pairrow / pairscans stored for earlier frame pairs all turn into (the first rows of) the last pair's table" % src(e)[:40])
+    R.shape(n >= 1, "C14.R7", SPF, "overlaps_linear.__call__", "a return (nedge, table)")
